@@ -27,6 +27,8 @@ MONITOR_FLAGS = {
     "plain": ["-O2", "-g"],
     "plain0": ["-O0", "-g"],
     "tsan": ["-O1", "-g", "-fno-omit-frame-pointer", "-fsanitize=thread", "-DVF_THREADS=1", "-pthread"],
+    # clang libFuzzer + ASan + the same UBSan subset (thorough tier only)
+    "fuzz": ["-O1", "-g", "-fno-omit-frame-pointer", "-fsanitize=fuzzer,address," + SAN_UB, "-fno-sanitize-recover=all"],
 }
 SIMD_FLAGS = {
     "none": [],
@@ -86,7 +88,7 @@ class Config:
         self.extra = tuple(extra)
 
     def name(self):
-        parts = [self.harness, self.monitor, self.simd, "esc%d" % self.esc, "hooks%d" % self.hooks]
+        parts = [self.harness.replace("/", "-"), self.monitor, self.simd, "esc%d" % self.esc, "hooks%d" % self.hooks]
         if self.unit:
             parts.append(self.unit)
         parts += [d.replace("=", "-") for d in self.defines]
@@ -138,7 +140,9 @@ def build_one(cfg):
     for n in os.listdir(bindir):
         if n.startswith(cfg.name() + ".") and n != os.path.basename(out) and ".tmp" not in n:
             try:
-                os.unlink(os.path.join(bindir, n))
+                # another run (e.g. the mutant self-test on a scratch tree) may be using it: only drop old ones
+                if time.time() - os.path.getmtime(os.path.join(bindir, n)) > 3 * 3600:
+                    os.unlink(os.path.join(bindir, n))
             except OSError:
                 pass
     log("[build] %s  %.1fs" % (cfg.name(), time.time() - t0))
@@ -244,6 +248,29 @@ def parse_report(stderr_text):
             msg = re.sub(r"'[^']*'", "T", msg)
             kind = "ubsan:" + msg.strip()[:60]
     if kind is None:
+        m = re.search(r"^==\d+== (Conditional jump or move depends on uninitialised value|Use of uninitialised value|"
+                      r"Invalid (?:read|write|free)|Syscall param \S+ (?:points to|contains) uninitialised|"
+                      r"Mismatched free|Source and destination overlap)", stderr_text, re.M)
+        if m:
+            kind = "memcheck:" + m.group(1).replace(" ", "-")
+            vframes = []
+            for line in stderr_text[m.end():].splitlines():
+                fm = re.match(r"^==\d+==\s+(?:at|by) 0x[0-9A-F]+: (.*?) \((?:in )?([^:)]+)(?::(\d+))?\)", line)
+                if fm:
+                    vframes.append((fm.group(1), fm.group(2)))
+                elif vframes:
+                    break
+            sig = []
+            for func, path in vframes:
+                if not (path.endswith(".hpp") and "harness" not in path and path not in ("common.hpp", "vmodel.hpp", "tmplgen.hpp", "jsongen.hpp")):
+                    if sig:
+                        break
+                    continue
+                sig.append(_strip_templates(func))
+                if sig[-1].startswith(COMPONENT_PREFIXES) or len(sig) >= 6:
+                    break
+            return kind + "@" + ("<".join(sig) if sig else "-"), []
+    if kind is None:
         m = re.search(r"ERROR: LeakSanitizer", stderr_text)
         if m:
             kind = "lsan:leak"
@@ -283,6 +310,8 @@ def parse_report(stderr_text):
 
 def signature(stderr_text):
     kind, frames = parse_report(stderr_text)
+    if kind.startswith("memcheck:"):
+        return kind
     inc = os.path.join(REPO, "Include")
     sig = []
     for func, path in frames:
@@ -351,16 +380,20 @@ def _parse_stdout(out, cfgname, res, want_samples=True, extra=()):
     return done
 
 
+MEMCHECK = ["valgrind", "-q", "--error-exitcode=98", "--exit-on-first-error=yes", "--undef-value-errors=yes",
+            "--leak-check=no", "--num-callers=16"]
+
+
 def run_chunk(binary, cfgname, seed, lo, hi, extra, workdir, tag, cpu, triage_budget, stack_mb,
-              timeout_is_violation):
+              timeout_is_violation, wrapper=()):
     """Run cases [lo,hi) of one binary in one process, restarting after deaths. Returns a RunResult."""
     res = RunResult()
     cur = lo
     restarts = 0
     while cur < hi:
         hashfile = os.path.join(workdir, "hash.%s.%d.%d.bin" % (tag, lo, restarts))
-        cmd = [binary, "--seed", str(seed), "--from", str(cur), "--to", str(hi), "--hashes", hashfile,
-               "--cpu", str(cpu)] + extra
+        cmd = list(wrapper) + [binary, "--seed", str(seed), "--from", str(cur), "--to", str(hi), "--hashes", hashfile,
+                               "--cpu", str(cpu)] + extra + (["--announce"] if wrapper else [])
         rc, out, err, wall_to = run_proc(cmd, stack_mb=stack_mb)
         done = _parse_stdout(out, cfgname, res, extra=extra)
         if os.path.exists(hashfile):
@@ -410,13 +443,13 @@ def run_chunk(binary, cfgname, seed, lo, hi, extra, workdir, tag, cpu, triage_bu
         if what == "TIMEOUT":
             _timeouts_seen[0] += 1
         # re-run that case alone for a clean report
-        cmd1 = [binary, "--seed", str(seed), "--only", str(case), "--cpu", str(cpu)] + extra
+        cmd1 = list(wrapper) + [binary, "--seed", str(seed), "--only", str(case), "--cpu", str(cpu)] + extra
         rc1, out1, err1, wto1 = run_proc(cmd1, wall=max(120, cpu * 6), stack_mb=stack_mb)
         r1 = RunResult()
         _parse_stdout(out1, cfgname, r1, want_samples=False, extra=extra)
         if rc1 == 0 and not r1.fails:
             # not reproducible alone: record as such (flaky deaths are never silently dropped)
-            sig = "nonrepro:" + signature(err)
+            sig = ("" if wrapper else "nonrepro:") + signature(err)
             res.deaths.append(Death(case, sig, err[-8000:], cfgname, extra))
         elif what == "MONITOR-FATAL" or (r1.fails and rc1 == 79):
             for f in r1.fails:
@@ -441,7 +474,9 @@ def run_cases(binaries, plan, seed, workdir, cpu=20, triage_cap=300, stack_mb=10
     total = RunResult()
     budget = [triage_cap]
     jobs = []
-    for (cfgname, lo, hi, extra) in plan:
+    for entry in plan:
+        (cfgname, lo, hi, extra) = entry[:4]
+        wrapper = entry[4] if len(entry) > 4 else ()
         n = hi - lo
         if n <= 0:
             continue
@@ -450,12 +485,12 @@ def run_cases(binaries, plan, seed, workdir, cpu=20, triage_cap=300, stack_mb=10
         c = lo
         i = 0
         while c < hi:
-            jobs.append((cfgname, c, min(hi, c + step), extra, "%s.%d" % (hashlib.md5(cfgname.encode()).hexdigest()[:8], i)))
+            jobs.append((cfgname, c, min(hi, c + step), extra, "%s.%d" % (hashlib.md5(cfgname.encode()).hexdigest()[:8], i), wrapper))
             c += step
             i += 1
     with cf.ThreadPoolExecutor(max_workers=NPROC) as ex:
-        futs = [ex.submit(run_chunk, binaries[j[0]], j[0], seed, j[1], j[2], j[3], workdir, j[4], cpu,
-                          budget, stack_mb, timeout_is_violation) for j in jobs]
+        futs = [ex.submit(run_chunk, binaries[j[0]], j[0], seed, j[1], j[2], j[3], workdir, j[4], cpu * (30 if j[5] else 1),
+                          budget, stack_mb, timeout_is_violation, j[5]) for j in jobs]
         for f, j in zip(futs, jobs):
             r = f.result()
             total.fails += r.fails
@@ -472,6 +507,79 @@ def run_cases(binaries, plan, seed, workdir, cpu=20, triage_cap=300, stack_mb=10
             total.per_cfg_cases[j[0]] = total.per_cfg_cases.get(j[0], 0) + r.counters.get("cases", 0)
     total.cases = total.counters.get("cases", 0)
     return total
+
+
+# ---------------------------------------------------------------------------------------------------
+# libFuzzer stage (thorough tier)
+# ---------------------------------------------------------------------------------------------------
+def run_fuzzer(binary, seed, runs_per_job, jobs, max_len, seeds, workdir, tag, dictionary=None, wall=3600):
+    """Runs `jobs` independent libFuzzer processes (own corpus dir each, seeds differ). A crash ends that process; its
+    report is parsed like any sanitizer report. Returns (stats, crashes[(signature, artifact_path, report_tail)])."""
+    os.makedirs(workdir, exist_ok=True)
+    procs = []
+    for j in range(jobs):
+        corp = os.path.join(workdir, "corpus.%s.%d" % (tag, j))
+        os.makedirs(corp, exist_ok=True)
+        for i, data in enumerate(seeds):
+            with open(os.path.join(corp, "seed%04d" % i), "wb") as f:
+                f.write(data)
+        art = os.path.join(workdir, "artifact.%s.%d." % (tag, j))
+        cmd = [binary, "-runs=%d" % runs_per_job, "-seed=%d" % (seed * 1000 + j + 1), "-max_len=%d" % max_len,
+               "-artifact_prefix=" + art, "-print_final_stats=1", "-timeout=25", "-rss_limit_mb=3000", corp]
+        if dictionary:
+            cmd.insert(-1, "-dict=" + dictionary)
+        e = run_env()
+        e["ASAN_OPTIONS"] = "abort_on_error=0:detect_leaks=0:handle_sigfpe=1:allocator_may_return_null=1:symbolize=1"
+        procs.append((j, art, subprocess.Popen(cmd, stdout=subprocess.DEVNULL, stderr=subprocess.PIPE, env=e,
+                                               preexec_fn=_preexec(1024))))
+    stats = {"executions": 0, "new_units": 0, "jobs": jobs, "crashed_jobs": 0}
+    crashes = []
+    for j, art, pr in procs:
+        try:
+            _, err = pr.communicate(timeout=wall)
+        except subprocess.TimeoutExpired:
+            pr.kill()
+            _, err = pr.communicate()
+        err = err.decode("utf-8", "replace")
+        m = re.search(r"stat::number_of_executed_units:\s+(\d+)", err)
+        if m:
+            stats["executions"] += int(m.group(1))
+        else:
+            m2 = None
+            for m2 in re.finditer(r"^#(\d+)\s", err, re.M):
+                pass
+            if m2:
+                stats["executions"] += int(m2.group(1))
+        m = re.search(r"stat::new_units_added:\s+(\d+)", err)
+        if m:
+            stats["new_units"] += int(m.group(1))
+        if pr.returncode != 0:
+            stats["crashed_jobs"] += 1
+            files = [f for f in os.listdir(workdir) if f.startswith(os.path.basename(art))]
+            path = os.path.join(workdir, files[0]) if files else ""
+            kind = "libfuzzer-timeout@-" if "ERROR: libFuzzer: timeout" in err else signature(err)
+            crashes.append((kind, path, err[-6000:]))
+    return stats, crashes
+
+
+def fuzz_stage(v, prop, target, seed, runs_per_job, jobs, max_len, seeds, workdir, dictionary=None, extra=()):
+    """Build harness/fuzz/<target>.cpp with clang libFuzzer+ASan+UBSan, run it, route every crash through the verdict."""
+    import shutil
+    fz = Config("fuzz/" + target, "fuzz", "sse2", 1, 1, compiler="clang++", extra=("-fno-sanitize=object-size",) + tuple(extra))
+    fbin = build_one(fz)
+    stats, crashes = run_fuzzer(fbin, seed, runs_per_job, jobs, max_len, seeds, workdir, target,
+                                dictionary=os.path.join(VERIF, "harness", "fuzz", dictionary) if dictionary else None)
+    for (sig, art, rep) in crashes:
+        keep = ""
+        if art:
+            os.makedirs(os.path.join(BUILD, "replays", prop), exist_ok=True)
+            keep = os.path.join(BUILD, "replays", prop, "fuzz-" + os.path.basename(art))
+            shutil.copy(art, keep)
+        v.failure("fuzz:" + sig, {"property": prop, "seed": seed, "key": "fuzz:" + sig, "artifact": keep, "report": rep[-3000:],
+                                  "build": fz.describe(), "how_to_replay": "%s %s" % (fbin, keep)},
+                  "libFuzzer: %s artifact=%s" % (sig, keep))
+    stats["build"] = fz.describe()
+    return stats
 
 
 # ---------------------------------------------------------------------------------------------------
@@ -525,7 +633,8 @@ def write_evidence(prop, tier, seed, coverage, wall, violations, assumptions=Non
         "wall_s": round(wall, 2),
         "violations": int(violations),
     }
-    d = os.path.join(VERIF, "evidence")
+    # tools/selftest_mutants.py points this elsewhere so runs against mutated scratch trees do not replace real evidence
+    d = os.environ.get("VERIF_EVIDENCE_DIR", os.path.join(VERIF, "evidence"))
     os.makedirs(d, exist_ok=True)
     tmp = os.path.join(d, prop + ".json.tmp")
     with open(tmp, "w") as f:
